@@ -41,11 +41,14 @@ pub fn gen(w: &mut impl Write, thorough: bool, seed: u64) {
     // --- every displacement around the program bounds, every jump/call opcode, with lddw targets --
     let mut jops: Vec<u8> = SUPPORTED.iter().copied().filter(|o| is_jump(*o)).collect();
     jops.push(0x85);
-    for n in 1..=6usize { for at in 0..n { for &op in &jops { for d in -(n as i32) - 3..=(n as i32) + 3 { for variant in 0..3 {
+    for n in 1..=6usize { for at in 0..n { for &op in &jops { for d in -(n as i32) - 3..=(n as i32) + 3 { for variant in 0..5 {
         if variant > 0 && n < 3 { continue; }
         let mut slots: Vec<[u8; 8]> = vec![nop; n]; slots.push(EXIT);
-        if variant == 1 && at != n - 2 && at != n - 1 { slots[n - 2] = ins(0x18, 1, 0, 0, 7); slots[n - 1] = [0; 8]; }
-        if variant == 2 && at >= 2 { slots[0] = ins(0x18, 1, 0, 0, 7); slots[1] = [0; 8]; }
+        // variants 3, 4: the second half of the wide load carries non-zero register, offset and immediate fields (only its
+        // opcode byte is 0): it is still the second half of a wide load, not an instruction a jump may land on
+        let second: [u8; 8] = if variant >= 3 { ins(0, 1, 2, 5, 9) } else { [0; 8] };
+        if (variant == 1 || variant == 3) && at != n - 2 && at != n - 1 { slots[n - 2] = ins(0x18, 1, 0, 0, 7); slots[n - 1] = second; }
+        if (variant == 2 || variant == 4) && at >= 2 { slots[0] = ins(0x18, 1, 0, 0, 7); slots[1] = second; }
         slots[at] = if op == 0x85 { ins(0x85, 0, 1, 0, d) } else { ins(op, 1, 2, d as i16, 0) };
         let p: Vec<u8> = slots.iter().flatten().copied().collect();
         emit(w, &p);
